@@ -747,6 +747,15 @@ def np_equal(I, a, k):
     raise Unsupported('numpy.equal(%r, %r)' % (x, y))
 
 
+def np_clip(I, a, k):
+    x = a[0]
+    if not Mo.is_list(x):
+        raise Unsupported('numpy.clip of %r' % (x,))
+    arr = np_asarray_(I, [x], {})
+    m = Mo.container_method(I, arr, 'clip')
+    return I.call(m, list(a[1:]), k)
+
+
 def np_add_reduce(I, a, k):
     x = a[0]
     if Mo.is_list(x) and x.kind == 'clist':
@@ -916,6 +925,7 @@ def lib_lookup(I, dotted):
         'numpy.ravel': Builtin('numpy.ravel', np_ravel),
         'numpy.flatten': Builtin('numpy.flatten', np_flatten),
         'numpy.squeeze': Builtin('numpy.squeeze', np_squeeze),
+        'numpy.clip': Builtin('numpy.clip', np_clip),
         'numpy.equal': Builtin('numpy.equal', np_equal),
         'numpy.eye': Builtin('numpy.eye', np_eye),
         'numpy.argsort': Builtin('numpy.argsort', np_argsort),
